@@ -1,5 +1,5 @@
 """C11 — deleting / recreating a layer never touches anything outside that layer.
-Hostile layer trees (modes, every kind of symlink, symlinked layer dir) are deleted through the four
+Hostile layer trees (modes, every kind of symlink, symlinked layer dir) are deleted through the six
 public routes by an unprivileged uid while fsshim traces every mutating libc call."""
 import os
 
